@@ -1,776 +1,531 @@
 """C16 - cached unfolding equals doit() whatever the cache has seen.
 
-How the code is read.  ``perform_cached_doit`` and everything it calls (``get_readable_hash``, the load / dump
-helpers, whatever a maintainer extracts or inlines) is INTERPRETED (``sa/pyexec.py``; CPython never imports or runs
-the package, no real file is touched) in a model world: a file system (directories, files with complete / partial /
-foreign content, handles, atomic rename), ``pathlib`` / ``os`` / ``tempfile`` / ``pickle`` / ``open`` with the behaviour
-the property is about (a load of damaged bytes raises, a temporary name is unique per call and process), a clock, and
-model expressions (two DIFFERENT expressions that print and hash alike).  The property's own quantifiers are then run
-as scenarios - histories of calls in one or several processes, every kind of foreign / damaged / half-written
-cache file, a kill after every file-system operation of a writing call, with and without PYTHONHASHSEED - and the
-observable outcome (returned value, exception, file-system events) is compared with the specification.  How the
-function is spelled (helpers, parameter order, walrus, ``read_bytes`` + ``loads``, ``NamedTemporaryFile`` ...) does not
-matter; what has no model is a ``ModelError`` (exit 2), never a pass and never a violation.
+Protocol rules on ``perform_cached_doit`` and the same-package helpers it calls:
 
-R-VERIFY    every call returns the unfolding (``doit()``) of ITS expression - or a stored value whose stored key equals
-            the expression -, whatever is in the directory or in the memory of the process.
-R-TOLERATE  no content of the directory (missing, damaged, truncated, foreign, unreadable) makes the call raise.
-R-PUBLISH   the final file is never opened for writing; it only ever appears by a rename from a temporary file that is
-            closed and whose name is unique to the call.
-R-OWNFILES  the call deletes / overwrites / renames away no file that it did not create itself.
-R-NOWAIT    no unbounded wait: what a killed process left behind cannot hang a later call.
+R-VERIFY    a value that comes out of ``pickle.load`` is returned only on paths on which it
+            was compared for equality with the query expression (matching outcome); every
+            returned value is either such a verified value or the result of ``.doit()``.
+R-TOLERATE  a load (or opening the cache file for reading) that raises is caught, and the
+            handler path goes on to recompute; nothing about the directory's contents can
+            propagate out of the function.
+R-PUBLISH   the final file name is never opened for writing; it is only the destination of
+            an atomic rename whose source is a fresh, process-unique temporary name, after
+            the temporary has been closed.
 R-HASHKEY   get_readable_hash is a function of the object and the environment only.
 """
 
 from __future__ import annotations
 
 import ast
-import hashlib
-import os.path as _osp
 
-from ..loader import AnalysisError, FuncInfo, Tree, unparse
-from ..pyexec import MObj, ModelError, ModelRaise, PyExec, plain
+from ..loader import AnalysisError, FuncInfo, Tree, unparse, walk_function
+from ..paths import PathWalker, handler_covers
 from ..report import Check
 
 PID = "C16"
 ENTRY = "ampform.sympy::perform_cached_doit"
-HASHFN = "ampform.sympy._cache::get_readable_hash"
-LOAD_FAILURES = ("UnpicklingError", "EOFError", "AttributeError", "ImportError", "IndexError")
-OPEN_FAILURES = ("IsADirectoryError", "PermissionError")
-CACHE_ROOT = "/home/user/.cache"
-
-
-class Killed(BaseException):
-    """The interpreted process is killed (no handler, no finally runs)."""
-
-
-class Hang(BaseException):
-    """The interpreted call waits without bound."""
-
-
-class Pickled:
-    """The bytes ``pickle.dumps(obj)`` produces."""
-
-    def __init__(self, obj) -> None:
-        self.obj = obj
-
-
-class Damaged:
-    """Bytes whose ``pickle.load`` raises ``kind``."""
-
-    def __init__(self, kind: str) -> None:
-        self.kind = kind
-
-
-PARTIAL = Damaged("EOFError")  # what a writer that was killed before closing leaves behind
-
-
-class File:
-    def __init__(self, content, owner: str, mode: str = "rw") -> None:
-        self.content, self.owner, self.mode = content, owner, mode
-        self.writers = 0
-
-
-class FileSystem:
-    def __init__(self) -> None:
-        self.files: dict[str, File] = {}
-        self.dirs: set[str] = {"/", "/home", "/home/user", "/tmp"}  # noqa: S108
-        self.events: list[tuple] = []
-        self.kill_at: int | None = None
-        self.call = "call-0"
-        self.unique = 0
-
-    def tick(self, *event) -> None:
-        self.events.append((self.call, *event))
-        if self.kill_at is not None and len([e for e in self.events if e[0] == self.call]) >= self.kill_at:
-            raise Killed
-
-    def copy(self) -> "FileSystem":
-        out = FileSystem()
-        out.files = {p: File(f.content, f.owner, f.mode) for p, f in self.files.items()}
-        out.dirs = set(self.dirs)
-        out.unique = self.unique
-        return out
-
-
-# --------------------------------------------------------------------------- the model world
-class CacheWorld:
-    """One PROCESS: an interpreter (module-level state of the package lives in it) on a file system that may be
-    shared with earlier processes."""
-
-    def __init__(self, tree: Tree, fs: FileSystem, hash_seed: str | None, process: int = 1) -> None:
-        self.tree, self.fs, self.process = tree, fs, process
-        self.env = {"HOME": "/home/user"} | ({"PYTHONHASHSEED": hash_seed} if hash_seed is not None else {})
-        self.clock = 1000.0 * process
-        self.slept = 0.0
-        self.ex = PyExec(tree, max_steps=300_000)
-        self.paths: dict[str, MObj] = {}
-        self.path_class = MObj("class pathlib.Path", {"__qual__": "pathlib.Path", "__name__": "Path", "__call__": lambda a, k: self.path(self.join(a)),
-                                                      "home": lambda a, k: self.path("/home/user"), "cwd": lambda a, k: self.path("/home/user")}, kinds={"class"})
-        self.ex.externals.update(self.externals())
-
-    # ---- strings and paths
-    def fspath(self, x) -> str:
-        if isinstance(x, str):
-            return x
-        if isinstance(x, MObj) and "__fspath__" in x.attrs:
-            return x.attrs["__fspath__"]([], {})
-        raise ModelRaise("TypeError", f"expected str, bytes or os.PathLike object, not {x!r}")
-
-    def join(self, parts) -> str:
-        parts = [self.fspath(p) for p in parts] or ["."]
-        return _osp.normpath(_osp.join("/home/user", *parts))
-
-    def path(self, text: str) -> MObj:
-        if text in self.paths:
-            return self.paths[text]
-        fs = self.fs
-        p = MObj(f"Path({text!r})", kinds={"pathlib.Path", "pathlib.PurePath", "os.PathLike", "pathlib.PosixPath"}, open=False)
-        self.paths[text] = p
-        sub = lambda t: self.path(t)  # noqa: E731
-
-        def mkdir(a, k):
-            fs.tick("mkdir", text)
-            if text in fs.files:
-                raise ModelRaise("FileExistsError", text)
-            if text in fs.dirs:
-                if k.get("exist_ok"):
-                    return None
-                raise ModelRaise("FileExistsError", text)
-            parent = _osp.dirname(text)
-            if parent not in fs.dirs:
-                if not k.get("parents"):
-                    raise ModelRaise("FileNotFoundError", parent)
-                d = parent
-                while d not in fs.dirs:
-                    fs.dirs.add(d)
-                    d = _osp.dirname(d)
-            fs.dirs.add(text)
-            return None
-
-        def listing(pattern=None):
-            import fnmatch
-
-            fs.tick("listdir", text)
-            names = sorted({q for q in [*fs.files, *fs.dirs] if _osp.dirname(q) == text and q != text})
-            return [sub(q) for q in names if pattern is None or fnmatch.fnmatch(_osp.basename(q), pattern)]
-
-        def unlink(a, k):
-            try:
-                self.remove(text)
-            except ModelRaise as exc:
-                if exc.kind == "FileNotFoundError" and k.get("missing_ok", a[0] if a else False):
-                    return None
-                raise
-
-        p.attrs.update({
-            "__fspath__": lambda a, k: text, "__str__": lambda a, k: text, "__truediv__": lambda a, k: sub(self.join([text, a[0]])),
-            "__rtruediv__": lambda a, k: sub(self.join([a[0], text])), "__eq__": lambda a, k: a[0] is p, "__hash__": lambda a, k: hash(text),
-            "name": _osp.basename(text), "suffix": _osp.splitext(text)[1], "stem": _osp.splitext(_osp.basename(text))[0], "parts": tuple(x for x in text.split("/") if x),
-            "joinpath": lambda a, k: sub(self.join([text, *a])), "with_suffix": lambda a, k: sub(_osp.splitext(text)[0] + a[0]),
-            "with_name": lambda a, k: sub(_osp.join(_osp.dirname(text), a[0])), "resolve": lambda a, k: p, "absolute": lambda a, k: p, "expanduser": lambda a, k: p,
-            "as_posix": lambda a, k: text, "is_absolute": lambda a, k: True,
-            "exists": lambda a, k: self.stat("exists", text), "is_file": lambda a, k: self.stat("is_file", text), "is_dir": lambda a, k: self.stat("is_dir", text),
-            "mkdir": mkdir, "open": lambda a, k: self.open(text, a[0] if a else k.get("mode", "r")), "unlink": unlink,
-            "read_bytes": lambda a, k: self.read_whole(text), "write_bytes": lambda a, k: self.write_whole(text, a[0]),
-            "replace": lambda a, k: self.rename(text, self.fspath(a[0])) or sub(self.fspath(a[0])), "rename": lambda a, k: self.rename(text, self.fspath(a[0])) or sub(self.fspath(a[0])),
-            "touch": lambda a, k: self.close(self.open(text, "ab")), "glob": lambda a, k: listing(a[0]), "iterdir": lambda a, k: listing(), "rglob": lambda a, k: listing(a[0]),
-            "stat": lambda a, k: self.stat_result(text), "rmdir": lambda a, k: self.rmtree(text),
-        })
-        p.dynamic = {"parent": lambda: sub(_osp.dirname(text))}  # type: ignore[attr-defined]
-        return p
-
-    def stat(self, what: str, path: str) -> bool:
-        self.fs.tick("stat", path)
-        if what == "exists":
-            return path in self.fs.files or path in self.fs.dirs
-        return path in (self.fs.files if what == "is_file" else self.fs.dirs)
-
-    def stat_result(self, path: str):
-        self.fs.tick("stat", path)
-        if path not in self.fs.files and path not in self.fs.dirs:
-            raise ModelRaise("FileNotFoundError", path)
-        return MObj(f"stat({path})", {"st_mtime": 0.0, "st_size": 100, "st_ctime": 0.0}, open=False)
-
-    # ---- files
-    def _check_dir(self, path: str) -> None:
-        if _osp.dirname(path) not in self.fs.dirs:
-            raise ModelRaise("FileNotFoundError", path)
-
-    def open(self, path: str, mode: str = "r", exclusive: bool = False) -> MObj:
-        fs = self.fs
-        writing = any(c in mode for c in "wax+")
-        fs.tick("open", path, mode)
-        if path in fs.dirs:
-            raise ModelRaise("IsADirectoryError", path)
-        f = fs.files.get(path)
-        if f is not None and f.mode == "unreadable" and not writing:
-            raise ModelRaise("PermissionError", path)
-        if not writing:
-            if f is None:
-                raise ModelRaise("FileNotFoundError", path)
-        else:
-            self._check_dir(path)
-            if ("x" in mode or exclusive) and f is not None:
-                raise ModelRaise("FileExistsError", path)
-            if f is None:
-                f = fs.files[path] = File(PARTIAL, fs.call)
-            elif "w" in mode:
-                fs.tick("truncate", path, f.owner)
-                f.content = PARTIAL
-            f.writers += 1
-        return self.handle(path, f, mode)
-
-    def handle(self, path: str, f: File, mode: str, delete_on_close: bool = False) -> MObj:
-        fs = self.fs
-        writing = any(c in mode for c in "wax+")
-        state = {"closed": False}
-        h = MObj(f"file {path!r} ({mode})", {"name": path, "mode": mode}, open=False)
-
-        def close(a, k):
-            if state["closed"]:
-                return None
-            state["closed"] = True
-            fs.tick("close", path)
-            if writing:
-                f.writers -= 1
-                if isinstance(f.content, list):
-                    f.content = f.content[0] if len(f.content) == 1 else PARTIAL
-            if delete_on_close and fs.files.get(path) is f:
-                fs.tick("unlink", path, f.owner)
-                del fs.files[path]
-            return None
-
-        def write(a, k):
-            if state["closed"] or not writing:
-                raise ModelRaise("ValueError", "I/O operation on closed / read-only file")
-            fs.tick("write", path)
-            f.content = [*f.content, a[0]] if isinstance(f.content, list) else [a[0]]
-            return 1
-
-        def read(a, k):
-            if state["closed"]:
-                raise ModelRaise("ValueError", "I/O operation on closed file")
-            fs.tick("read", path)
-            return f.content if not isinstance(f.content, list) else PARTIAL
-
-        h.attrs.update({"close": close, "write": write, "read": read, "flush": lambda a, k: None, "fileno": lambda a, k: h, "__enter__": lambda a, k: h,
-                        "__exit__": lambda a, k: close([], {}) and False, "closed": False, "readable": lambda a, k: not writing, "writable": lambda a, k: writing,
-                        "__file__": f, "__path__": path})
-        return h
-
-    def close(self, h) -> None:
-        if isinstance(h, MObj) and "close" in h.attrs:
-            h.attrs["close"]([], {})
-
-    def read_whole(self, path: str):
-        h = self.open(path, "rb")
-        try:
-            return h.attrs["read"]([], {})
-        finally:
-            self.close(h)
-
-    def write_whole(self, path: str, data) -> None:
-        h = self.open(path, "wb")
-        h.attrs["write"]([data], {})
-        self.close(h)
-
-    def remove(self, path: str) -> None:
-        fs = self.fs
-        f = fs.files.get(path)
-        fs.tick("unlink", path, f.owner if f is not None else None)
-        if path in fs.dirs:
-            raise ModelRaise("IsADirectoryError", path)
-        if f is None:
-            raise ModelRaise("FileNotFoundError", path)
-        del fs.files[path]
-
-    def rmtree(self, path: str) -> None:
-        fs = self.fs
-        for q in [q for q in fs.files if q == path or q.startswith(path + "/")]:
-            fs.tick("unlink", q, fs.files[q].owner)
-            del fs.files[q]
-        fs.dirs -= {d for d in fs.dirs if d == path or d.startswith(path + "/")}
-
-    def rename(self, src: str, dst: str) -> None:
-        fs = self.fs
-        f = fs.files.get(src)
-        fs.tick("rename", src, dst, f.owner if f is not None else None, f.writers if f is not None else 0, fs.files[dst].owner if dst in fs.files else None)
-        if f is None:
-            raise ModelRaise("FileNotFoundError", src)
-        if dst in fs.dirs:
-            raise ModelRaise("IsADirectoryError", dst)
-        self._check_dir(dst)
-        fs.files[dst] = f
-        del fs.files[src]
-        return None
-
-    def unique_name(self, directory: str, prefix: str, suffix: str) -> str:
-        self.fs.unique += 1
-        return _osp.join(directory, f"{prefix}{self.process:02d}x{self.fs.unique:04d}{suffix}")
-
-    # ---- externals
-    def externals(self) -> dict:  # noqa: C901
-        fs = self.fs
-
-        def mkstemp(a, k):
-            directory = self.fspath(k.get("dir") if k.get("dir") is not None else (a[2] if len(a) > 2 else "/tmp"))  # noqa: S108
-            suffix = k.get("suffix") or (a[0] if a else "") or ""
-            prefix = k.get("prefix") or (a[1] if len(a) > 1 else "tmp") or "tmp"
-            name = self.unique_name(directory, prefix, suffix)
-            h = self.open(name, "w+b", exclusive=True)
-            return (h, name)
-
-        def named_temporary_file(a, k):
-            mode = k.get("mode", a[0] if a else "w+b")
-            directory = self.fspath(k["dir"]) if k.get("dir") is not None else "/tmp"  # noqa: S108
-            name = self.unique_name(directory, k.get("prefix") or "tmp", k.get("suffix") or "")
-            fs.tick("open", name, "x" + mode)
-            self._check_dir(name)
-            f = fs.files[name] = File(PARTIAL, fs.call)
-            f.writers = 1
-            return self.handle(name, f, "w+b" if not any(c in mode for c in "wax+") else mode, delete_on_close=bool(k.get("delete", True)))
-
-        def fdopen(a, k):
-            h = a[0]
-            if not (isinstance(h, MObj) and "__file__" in h.attrs):
-                raise ModelError("os.fdopen of something that is not a descriptor of the model")
-            return h
-
-        def os_open(a, k):
-            flags = a[1] if len(a) > 1 else 0
-            if not isinstance(flags, int):
-                raise ModelError("os.open with flags that have no model")
-            mode = "rb"
-            if flags & (1 | 2 | 64):  # O_WRONLY | O_RDWR | O_CREAT
-                mode = "ab"
-            if flags & 512:  # O_TRUNC
-                mode = "wb"
-            return self.open(self.fspath(a[0]), mode, exclusive=bool(flags & 128 and flags & 64))
-
-        def load(a, k):
-            h = a[0]
-            if not (isinstance(h, MObj) and "read" in h.attrs):
-                raise ModelRaise("TypeError", "file must have 'read' and 'readline' attributes")
-            return loads([h.attrs["read"]([], {})], {})
-
-        def loads(a, k):
-            data = a[0]
-            if isinstance(data, Pickled):
-                return data.obj
-            if isinstance(data, Damaged):
-                raise ModelRaise(data.kind, "the cache file cannot be unpickled")
-            if isinstance(data, bytes):
-                raise ModelRaise("UnpicklingError", "invalid load key")
-            raise ModelRaise("TypeError", "a bytes-like object is required")
-
-        def dump(a, k):
-            h = a[1] if len(a) > 1 else k.get("file")
-            if not (isinstance(h, MObj) and "write" in h.attrs):
-                raise ModelRaise("TypeError", "file must have a 'write' attribute")
-            h.attrs["write"]([Pickled(a[0])], {})
-
-        def sleep(a, k):
-            dt = float(a[0]) if a and isinstance(a[0], (int, float)) else 1.0
-            self.clock += max(dt, 0.001)
-            self.slept += max(dt, 0.001)
-            fs.tick("sleep", dt)
-            if self.slept > 7200 or len([e for e in fs.events if e[1] == "sleep"]) > 400:
-                raise Hang
-            return None
-
-        def now(a, k):
-            self.clock += 0.001
-            return self.clock
-
-        def as_bytes(data):
-            if isinstance(data, Pickled):
-                if not plain(data.obj):
-                    raise ModelError("the bytes of a pickled model object have no model")
-                return b"pickle:" + repr(data.obj).encode()
-            if not isinstance(data, bytes):
-                raise ModelRaise("TypeError", "Strings must be encoded before hashing")
-            return data
-
-        def sha(name):
-            def make(a, k):
-                state = {"data": as_bytes(a[0]) if a else b""}
-
-                def update(a2, k2):
-                    state["data"] += as_bytes(a2[0])
-
-                return MObj(f"hashlib.{name}", {"update": update, "hexdigest": lambda a2, k2: getattr(hashlib, name)(state["data"]).hexdigest(),
-                                                "digest": lambda a2, k2: getattr(hashlib, name)(state["data"]).digest()}, open=False)
-
-            return make
-
-        def getenv(a, k):
-            return self.env.get(a[0], a[1] if len(a) > 1 else k.get("default"))
-
-        def env_item(a, k):
-            if a[0] not in self.env:
-                raise ModelRaise("KeyError", a[0])
-            return self.env[a[0]]
-
-        environ = MObj("os.environ", {"get": getenv, "__getitem__": env_item, "__contains__": lambda a, k: a[0] in self.env}, open=False)
-        uniq = lambda tag: lambda a, k: f"{tag}-{self.process}-{self._next()}"  # noqa: E731
-        str_only = lambda f: lambda a, k: f(*[self.fspath(x) for x in a])  # noqa: E731
-        out = {
-            "pathlib.Path": self.path_class, "pathlib.PurePath": self.path_class, "pathlib.PosixPath": self.path_class,
-            "open": lambda a, k: self.open(self.fspath(a[0]), a[1] if len(a) > 1 else k.get("mode", "r")) if not (isinstance(a[0], MObj) and "__file__" in a[0].attrs) else a[0],
-            "io.open": lambda a, k: self.open(self.fspath(a[0]), a[1] if len(a) > 1 else k.get("mode", "r")),
-            "os.fdopen": fdopen, "os.open": os_open, "os.close": lambda a, k: self.close(a[0]), "os.fsync": lambda a, k: None,
-            "os.O_CREAT": 64, "os.O_EXCL": 128, "os.O_WRONLY": 1, "os.O_RDWR": 2, "os.O_RDONLY": 0, "os.O_TRUNC": 512, "os.O_APPEND": 1024,
-            "os.replace": lambda a, k: self.rename(self.fspath(a[0]), self.fspath(a[1])), "os.rename": lambda a, k: self.rename(self.fspath(a[0]), self.fspath(a[1])),
-            "shutil.move": lambda a, k: self.rename(self.fspath(a[0]), self.fspath(a[1])),
-            "os.remove": lambda a, k: self.remove(self.fspath(a[0])), "os.unlink": lambda a, k: self.remove(self.fspath(a[0])),
-            "shutil.rmtree": lambda a, k: self.rmtree(self.fspath(a[0])), "os.rmdir": lambda a, k: self.rmtree(self.fspath(a[0])),
-            "os.makedirs": lambda a, k: self.path(self.fspath(a[0])).attrs["mkdir"]([], {"parents": True, "exist_ok": k.get("exist_ok", False)}),
-            "os.mkdir": lambda a, k: self.path(self.fspath(a[0])).attrs["mkdir"]([], {}),
-            "os.listdir": lambda a, k: [_osp.basename(self.fspath(p)) for p in self.path(self.fspath(a[0]) if a else "/home/user").attrs["iterdir"]([], {})],
-            "os.scandir": lambda a, k: self.path(self.fspath(a[0])).attrs["iterdir"]([], {}),
-            "os.path.exists": lambda a, k: self.stat("exists", self.fspath(a[0])), "os.path.isfile": lambda a, k: self.stat("is_file", self.fspath(a[0])),
-            "os.path.isdir": lambda a, k: self.stat("is_dir", self.fspath(a[0])),
-            "os.path.join": str_only(_osp.join), "os.path.dirname": str_only(_osp.dirname), "os.path.basename": str_only(_osp.basename), "os.path.splitext": str_only(_osp.splitext),
-            "os.path.expanduser": lambda a, k: self.fspath(a[0]).replace("~", "/home/user", 1), "os.path.abspath": lambda a, k: self.join([a[0]]), "os.fspath": lambda a, k: self.fspath(a[0]),
-            "os.getenv": getenv, "os.environ": environ, "os.environ.get": getenv, "os.getpid": lambda a, k: 4000 + self.process, "os.sep": "/",
-            "tempfile.mkstemp": mkstemp, "tempfile.NamedTemporaryFile": named_temporary_file, "tempfile.gettempdir": lambda a, k: "/tmp",  # noqa: S108
-            "tempfile.mktemp": lambda a, k: self.unique_name(self.fspath(k.get("dir", "/tmp")), k.get("prefix") or "tmp", k.get("suffix") or ""),  # noqa: S108
-            "uuid.uuid4": lambda a, k: MObj("uuid", {"hex": uniq("uuid")([], {}), "__str__": lambda a2, k2, u=uniq("uuid")([], {}): u}, open=False), "uuid.uuid1": uniq("uuid1"),
-            "secrets.token_hex": uniq("token"), "random.random": lambda a, k: 0.001 * self._next() + 0.1 * self.process, "random.randint": lambda a, k: 17 * self.process + self._next(),
-            "pickle.load": load, "pickle.loads": loads, "pickle.dump": dump, "pickle.dumps": lambda a, k: Pickled(a[0]),
-            "pickle.Pickler": lambda a, k: MObj("pickle.Pickler", {"dump": lambda a2, k2, h=a[0]: dump([a2[0], h], {})}, open=False),
-            "pickle.Unpickler": lambda a, k: MObj("pickle.Unpickler", {"load": lambda a2, k2, h=a[0]: load([h], {})}, open=False),
-            "pickle.HIGHEST_PROTOCOL": 5, "pickle.DEFAULT_PROTOCOL": 4,
-            "time.sleep": sleep, "time.time": now, "time.monotonic": now, "time.perf_counter": now, "time.time_ns": lambda a, k: int(now(a, k) * 1e9),
-            "hashlib.sha256": sha("sha256"), "hashlib.md5": sha("md5"), "hashlib.sha1": sha("sha1"), "hashlib.blake2b": sha("blake2b"),
-            "importlib.metadata.version": lambda a, k: "1.12", "sys.platform": "linux", "sys.version_info": (3, 12, 0),
-            "textwrap.dedent": lambda a, k: __import__("textwrap").dedent(a[0]),
-            "warnings.warn": lambda a, k: None,
-            "id": lambda a, k: 140_000_000 + 1_000_003 * self.process + 16 * (abs(hash(getattr(a[0], "label", repr(a[0])))) % 9973),
-            "hash": self.hash_of,
-        }
-        return out
-
-    _counter = 0
-
-    def _next(self) -> int:
-        self._counter += 1
-        return self._counter
-
-    def hash_of(self, a, k):
-        v = a[0]
-        if isinstance(v, MObj):
-            if "__hash__" in v.attrs:
-                return v.attrs["__hash__"]([], {})
-            raise ModelError(f"hash({v!r}) has no model")
-        if isinstance(v, str):  # str hashes are salted by PYTHONHASHSEED / the process
-            seed = self.env.get("PYTHONHASHSEED")
-            salt = seed if seed is not None and seed != "0" and seed.isdigit() else ("" if seed == "0" else f"process-{self.process}")
-            return int(hashlib.sha256((salt + v).encode()).hexdigest()[:12], 16)
-        if plain(v):
-            try:
-                return hash(v) if not isinstance(v, (tuple, frozenset)) or all(not isinstance(x, str) for x in v) else int(hashlib.sha256(repr(v).encode()).hexdigest()[:12], 16)
-            except TypeError:
-                raise ModelRaise("TypeError", "unhashable") from None
-        raise ModelError(f"hash({v!r}) has no model")
-
-    # ---- expressions
-    @staticmethod
-    def expression(name: str, text: str, hash_value: int) -> MObj:
-        """A model expression; ``text`` / ``hash_value`` are what ``str`` / ``hash`` give (two different expressions may agree in both)."""
-        unfolded = MObj(f"unfolded({name})", {"__str__": lambda a, k: f"unfolded {text}"}, kinds={"sympy.Expr", "sympy.Basic"}, open=False)
-        e = MObj(f"expression {name}", kinds={"sympy.Expr", "sympy.Basic"}, open=False)
-        unfolded.attrs.update({"doit": lambda a, k: unfolded, "__eq__": lambda a, k: a[0] is unfolded, "__hash__": lambda a, k: hash_value + 1})
-        e.attrs.update({"doit": lambda a, k: unfolded, "__str__": lambda a, k: text, "__eq__": lambda a, k: a[0] is e, "__hash__": lambda a, k: hash_value,
-                        "__unfolded__": unfolded, "func": MObj("class of the expression", open=False), "args": ()})
-        return e
-
-
-# --------------------------------------------------------------------------- running scenarios
-class Outcome:
-    def __init__(self, kind: str, value=None, events=()) -> None:
-        self.kind, self.value, self.events = kind, value, list(events)  # kind: returned | raised | killed | hang
-
-
-def call(world: CacheWorld, entry: FuncInfo, expr: MObj, directory, tag: str, kill_at: int | None = None) -> Outcome:
-    fs = world.fs
-    fs.call, fs.kill_at = tag, kill_at
-    start = len(fs.events)
-    args = [expr] if directory is None else [expr, directory]
-    try:
-        value = world.ex.run(entry, args)
-        return Outcome("returned", value, fs.events[start:])
-    except ModelRaise as exc:
-        return Outcome("raised", exc, fs.events[start:])
-    except Killed:
-        for f in fs.files.values():  # whatever was open for writing stays as it is: not closed, possibly incomplete
-            if f.writers:
-                f.writers = 0
-                f.content = PARTIAL
-        return Outcome("killed", None, fs.events[start:])
-    except Hang:
-        return Outcome("hang", None, fs.events[start:])
-    except ModelError as exc:
-        raise AnalysisError(f"perform_cached_doit ({tag}): cannot interpret - {exc}") from exc
-    finally:
-        fs.kill_at = None
-
-
-class Findings:
-    def __init__(self) -> None:
-        self.items: dict[tuple[str, str], tuple[str, list[str]]] = {}
-        self.checked: dict[str, int] = {}
-
-    def add(self, rule: str, key: str, what: str, scenario: str) -> None:
-        self.items.setdefault((rule, key), (what, []))[1].append(scenario)
-
-    def count(self, rule: str) -> None:
-        self.checked[rule] = self.checked.get(rule, 0) + 1
-
-
-def judge_result(found: Findings, out: Outcome, expr: MObj, scenario: str, stored_values: list, directory_problem: bool = True) -> None:
-    """R-VERIFY / R-TOLERATE / R-NOWAIT on the outcome of one call."""
-    found.count("R-VERIFY")
-    found.count("R-TOLERATE")
-    found.count("R-NOWAIT")
-    if out.kind == "hang":
-        found.add("R-NOWAIT", f"{ENTRY}::wait-loop", "perform_cached_doit waits without bound on the state of the cache directory", scenario)
-        return
-    if out.kind == "raised":
-        if directory_problem:
-            found.add("R-TOLERATE", f"{ENTRY}::{out.value.kind}::escapes",
-                      f"perform_cached_doit raises {out.value.kind} because of what is in the cache directory - a truncated or foreign file makes every later call raise", scenario)
-        return
-    if out.kind != "returned":
-        return
-    v = out.value
-    if v is expr.attrs["__unfolded__"]:
-        return
-    if any(v is s for s in stored_values):
-        found.add("R-VERIFY", f"{ENTRY}::return::unverified-load",
-                  "perform_cached_doit returns a value stored for ANOTHER expression / an unverifiable cache entry - the file name (hash or sha256 of str(expr)) is not injective", scenario)
+LOADS = {"pickle.load", "pickle.loads", "_pickle.load", "_pickle.loads", "cloudpickle.load", "dill.load"}
+DUMPS = {"pickle.dump", "pickle.dumps"}
+NEEDED_LOAD = {"UnpicklingError", "EOFError", "AttributeError", "ImportError", "IndexError"}
+NEEDED_OPEN = {"FileNotFoundError", "IsADirectoryError", "PermissionError"}
+RENAMES = {"os.replace", "os.rename", "shutil.move"}
+TMP_SOURCES = {"tempfile.mkstemp", "tempfile.NamedTemporaryFile", "tempfile.mktemp", "uuid.uuid4", "uuid.uuid1", "os.getpid", "secrets.token_hex", "tempfile.TemporaryDirectory", "tempfile.mkdtemp"}
+
+
+def _is_open_call(call: ast.Call, callee: str | None) -> str | None:
+    """Return the mode string if this is open(...)/Path.open(...)/os.fdopen(...)."""
+    name = None
+    if isinstance(call.func, ast.Name) and call.func.id == "open":
+        name = "open"
+        mode = call.args[1] if len(call.args) > 1 else next((k.value for k in call.keywords if k.arg == "mode"), None)
+    elif isinstance(call.func, ast.Attribute) and call.func.attr == "open" and callee not in {"os.open"}:
+        name = "path.open"
+        mode = call.args[0] if call.args else next((k.value for k in call.keywords if k.arg == "mode"), None)
+    elif callee == "os.fdopen":
+        name = "fdopen"
+        mode = call.args[1] if len(call.args) > 1 else next((k.value for k in call.keywords if k.arg == "mode"), None)
     else:
-        found.add("R-VERIFY", f"{ENTRY}::return::neither-cache-nor-doit",
-                  f"perform_cached_doit returns `{getattr(v, 'label', repr(v))[:60]}`: neither the unfolding of its expression nor a verified cache entry", scenario)
+        return None
+    if mode is None:
+        return "r"
+    if isinstance(mode, ast.Constant) and isinstance(mode.value, str):
+        return mode.value
+    return "?"
 
 
-def judge_events(found: Findings, out: Outcome, final: str | None, scenario: str) -> None:
-    """R-PUBLISH / R-OWNFILES on the file-system events of one call."""
-    found.count("R-PUBLISH")
-    found.count("R-OWNFILES")
-    me = out.events[0][0] if out.events else None
-    for ev in out.events:
-        kind = ev[1]
-        if kind == "open" and any(c in ev[3] for c in "wax+") and final is not None and ev[2] == final:
-            found.add("R-PUBLISH", f"{ENTRY}::open-final-for-write", f"the final cache file is opened for writing (mode {ev[3]!r}): a reader or a crash sees a partial file, two writers interleave", scenario)
-        if kind == "truncate" and ev[3] != me:
-            if final is None or ev[2] != final:
-                found.add("R-OWNFILES", f"{ENTRY}::overwrites-foreign-file", f"the call truncates `{_osp.basename(ev[2])}`, a file it did not create (it may be the temporary of a concurrent writer)", scenario)
-        if kind == "unlink" and ev[3] is not None and ev[3] != me:
-            found.add("R-OWNFILES", f"{ENTRY}::removes-foreign-file", f"the call removes `{_osp.basename(ev[2])}`, a file it did not create - it may belong to a concurrent process that is between creating its temporary and os.replace", scenario)
-        if kind == "rename":
-            _, _, src, dst, owner, writers, dst_owner = ev
-            if owner is not None and owner != me:
-                found.add("R-OWNFILES", f"{ENTRY}::renames-foreign-file", f"the call renames `{_osp.basename(src)}`, a file it did not create", scenario)
-            if final is not None and dst == final and writers:
-                found.add("R-PUBLISH", f"{ENTRY}::rename-before-close", "the temporary file is renamed to the final name while it is still open for writing (data may be unflushed)", scenario)
-            if final is not None and dst != final and dst_owner is not None and dst_owner != me:
-                found.add("R-OWNFILES", f"{ENTRY}::overwrites-foreign-file", f"the call renames onto `{_osp.basename(dst)}`, a file it did not create", scenario)
+class Infeasible(Exception):
+    pass
 
 
-def written_names(out: Outcome) -> set[str]:
-    return {ev[2] for ev in out.events if ev[1] == "open" and any(c in ev[3] for c in "wax+")}
+class State:
+    def __init__(self) -> None:
+        self.tags: dict[str, set[str]] = {}
+        self.verified = False
+        self.open_writes: list[tuple[ast.AST, set[str]]] = []  # active `with` items writing
+        self.frames: list[dict[str, set[str]]] = []
+        self.last_call: ast.AST | None = None
+        self.load_failed: tuple | None = None
 
 
-def final_name(out: Outcome, directory: str) -> str | None:
-    """The cache file of the expression: what the call tries to read first / publishes to (None: the cache is not used)."""
-    reads = [ev[2] for ev in out.events if ev[1] == "open" and not any(c in ev[3] for c in "wax+") and ev[2].startswith(directory)]
-    renames = [ev[3] for ev in out.events if ev[1] == "rename" and ev[3].startswith(directory)]
-    stats = [ev[2] for ev in out.events if ev[1] == "stat" and ev[2].startswith(directory) and ev[2] != directory]
-    for cands in (reads, renames, stats):
-        if cands:
-            return cands[0]
-    return None
+class Interp:
+    """Interprets one path of the walker with a small taint state."""
 
+    def __init__(self, tree: Tree, ctx: Check, entry: FuncInfo) -> None:
+        self.tree = tree
+        self.ctx = ctx
+        self.entry = entry
+        self.findings: dict[str, tuple] = {}
+        self.ok_counts = {"verified_returns": 0, "doit_returns": 0, "tolerated": 0, "publishes": 0}
 
-def check_protocol(ctx: Check, tree: Tree) -> None:  # noqa: C901, PLR0912, PLR0915
-    entry = tree.funcs.get(ENTRY)
-    if entry is None:
-        raise AnalysisError("vanished anchor: perform_cached_doit")
-    found = Findings()
-    n_scenarios = 0
-    for seed in (None, "0", "42"):
-        env = f"PYTHONHASHSEED={'unset' if seed is None else seed}"
-        e1 = CacheWorld.expression("E1", "f(x)", 1234567)
-        e2 = CacheWorld.expression("E2 (prints and hashes like E1)", "f(x)", 1234567)
-        for dir_kind in ("path", "str", "default"):
-            if dir_kind != "path" and seed != "0":
-                continue  # the directory argument is independent of the hash seed
-            base_dir = CACHE_ROOT + "/ampform/sympy-v1.12" if dir_kind == "default" else "/data/cache"
-            def directory_arg(world, dir_kind=dir_kind, base_dir=base_dir):
-                return None if dir_kind == "default" else base_dir if dir_kind == "str" else world.path(base_dir)
+    # ---- taint of an expression
+    def tags(self, expr: ast.AST | None, st: State, fn: FuncInfo) -> set[str]:
+        out: set[str] = set()
+        if expr is None:
+            return out
+        self._tags(expr, st, fn, out)
+        if "hash" in out and isinstance(expr, (ast.BinOp, ast.JoinedStr, ast.Call)):
+            out.add("final")
+        return out
 
-            def fresh_fs(base_dir=base_dir, populated=True):
-                fs = FileSystem()
-                fs.dirs |= {"/data"}
-                if populated:
-                    d = base_dir
-                    while d not in fs.dirs:
-                        fs.dirs.add(d)
-                        d = _osp.dirname(d)
-                    # what other processes have in the shared directory: an in-flight temporary, another entry
-                    fs.files[f"{base_dir}/tmp_other_process.tmp"] = File(PARTIAL, "another process")
-                    fs.files[f"{base_dir}/other-entry.pkl"] = File(Pickled((CacheWorld.expression("E0", "g(y)", 99), MObj("unfolded(E0)", kinds={"sympy.Expr"}, open=False))), "another process")
-                return fs
+    def _tags(self, n: ast.AST, st: State, fn: FuncInfo, out: set[str]) -> None:
+        if isinstance(n, ast.Name) and isinstance(n.ctx, ast.Load):
+            out |= st.tags.get(n.id, set())
+            return
+        if isinstance(n, ast.Call):
+            callee = self.tree.callee(n, fn)
+            name = n.func.id if isinstance(n.func, ast.Name) else None
+            if callee == "ampform.sympy._cache::get_readable_hash":
+                out.add("hash")
+                return  # a digest of the key is not the key
+            if name in {"str", "hash", "repr", "id"} or (callee or "").startswith("hashlib.") or (callee or "").endswith(("srepr", "latex")):
+                inner: set[str] = set()
+                for c in ast.iter_child_nodes(n):
+                    self._tags(c, st, fn, inner)
+                out |= {("hash" if t in {"key"} else t) for t in inner if t not in {"load"}} | ({"digest-of-load"} if "load" in inner else set())
+                return
+            if callee in LOADS:
+                out.add("load")
+            if callee in TMP_SOURCES:
+                out.add("tmp")
+            if isinstance(n.func, ast.Attribute) and n.func.attr == "doit":
+                inner = set()
+                self._tags(n.func.value, st, fn, inner)
+                if "key" in inner:
+                    out.add("doit")
+        for c in ast.iter_child_nodes(n):
+            self._tags(c, st, fn, out)
 
-            # ---- A. a first call on an empty / not yet existing directory; a second call in the same process; a colliding expression
-            for populated in (True, False):
-                fs = fresh_fs(populated=populated)
-                w = CacheWorld(tree, fs, seed, process=1)
-                sc = f"{env}, directory as {dir_kind}{'' if populated else ' (does not exist yet)'}"
-                o1 = call(w, entry, e1, directory_arg(w), "first call")
-                judge_result(found, o1, e1, f"{sc}: first call, nothing cached", [])
-                final = final_name(o1, base_dir)
-                judge_events(found, o1, final, f"{sc}: first call")
-                n_scenarios += 1
-                if not populated:
+    def flag(self, rule: str, key: str, node: ast.AST, what: str, detail=None) -> None:
+        self.findings.setdefault(f"{rule}|{key}", (rule, key, self.tree.loc(node), what, detail))
+
+    # ---- one path
+    def run_path(self, path) -> None:
+        st = State()
+        fn_stack: list[FuncInfo] = [self.entry]
+        # the first parameter is the query expression
+        st.tags[self.entry.params[0]] = {"key"}
+        pending_exc: tuple | None = None  # (kind, call) waiting for a handler
+        for ev in path.events:
+            kind = ev[0]
+            fn = fn_stack[-1]
+            if kind == "call-enter":
+                _, call, callee, bind = ev
+                new_tags = {p: self.tags(a, st, fn) for p, a in bind.items()}
+                st.frames.append(st.tags)
+                st.tags = new_tags
+                fn_stack.append(callee)
+            elif kind == "call-return":
+                _, call, callee, value, target = ev
+                ret_tags = self.tags(value, st, fn) if value is not None else set()
+                if value is not None and isinstance(value, ast.Constant) and value.value is None:
+                    ret_tags = {"none"}
+                st.tags = st.frames.pop()
+                fn_stack.pop()
+                st.last_call = call
+                if isinstance(target, ast.AST):
+                    self.assign(target, ret_tags, st)
+                elif target == "<return>":
+                    st.tags["<ret>"] = ret_tags
+            elif kind == "stmt":
+                node = ev[1]
+                self.stmt(node, st, fn, path)
+            elif kind == "test":
+                _, test, outcome = ev
+                self.test(test, outcome, st, fn)
+            elif kind == "with-enter":
+                item = ev[1]
+                t = self.tags(item.context_expr, st, fn)
+                self.scan_calls(item.context_expr, st, fn)
+                for c in ast.walk(item.context_expr):
+                    if isinstance(c, ast.Call):
+                        mode = _is_open_call(c, self.tree.callee(c, fn))
+                        if mode and any(m in mode for m in "wax+"):
+                            st.open_writes.append((item, t))
+                if item.optional_vars is not None:
+                    self.assign(item.optional_vars, t, st)
+            elif kind == "with-exit":
+                w = ev[1]
+                st.open_writes = [(i, t) for i, t in st.open_writes if i not in w.items]
+            elif kind == "raise-at":
+                _, node, call = ev
+                callee = self.tree.callee(call, fn)
+                pending_exc = ("load" if callee in LOADS else "open", call, fn)
+            elif kind == "handler":
+                h = ev[1]
+                if pending_exc is None:
                     continue
-                stored = [e1.attrs["__unfolded__"]]
-                o2 = call(w, entry, e1, directory_arg(w), "second call")
-                judge_result(found, o2, e1, f"{sc}: second call for the same expression in the same process", [])
-                judge_events(found, o2, final, f"{sc}: second call")
-                o3 = call(w, entry, e2, directory_arg(w), "third call")
-                judge_result(found, o3, e2, f"{sc}: a DIFFERENT expression with the same str() and hash() in the same process", stored)
-                judge_events(found, o3, final, f"{sc}: colliding expression")
-                # another process finds the file of the first
-                w2 = CacheWorld(tree, fs, seed, process=2)
-                o4 = call(w2, entry, e2, directory_arg(w2), "fourth call")
-                judge_result(found, o4, e2, f"{sc}: a different expression with the same str() and hash() in another process", stored)
-                w3 = CacheWorld(tree, fs.copy(), seed, process=3)
-                o5 = call(w3, entry, e1, directory_arg(w3), "fifth call")
-                judge_result(found, o5, e1, f"{sc}: the same expression in another process", [])
-                n_scenarios += 4
-                # ---- uniqueness of the temporary: a concurrent writer of the same expression must not share names
-                fs_b = fresh_fs()
-                wb = CacheWorld(tree, fs_b, seed, process=7)  # (another process: what tempfile hands out differs, what is derived from the expression does not)
-                mine = written_names(o1) - ({final} if final else set())
-                for name in mine:
-                    fs_b.files[name] = File(PARTIAL, "a concurrent writer of the same expression")
-                ob = call(wb, entry, e1, directory_arg(wb), "concurrent call")
-                found.count("R-PUBLISH")
-                shared = [ev for ev in ob.events if (ev[1] in {"truncate", "unlink"} and ev[3] == "a concurrent writer of the same expression")
-                          or (ev[1] == "rename" and ev[4] == "a concurrent writer of the same expression")]
-                if shared:
-                    found.add("R-PUBLISH", f"{ENTRY}::rename-source-not-unique",
-                              f"the temporary file `{_osp.basename(shared[0][2])}` is not unique to the call (derived from the hash only): concurrent writers of the same expression share it", f"{sc}: two writers")
-                elif ob.kind == "raised":
-                    found.add("R-PUBLISH", f"{ENTRY}::rename-source-not-unique", f"a concurrent writer that uses the same temporary name makes the call raise {ob.value.kind}", f"{sc}: two writers")
-                n_scenarios += 1
-                if final is None or dir_kind != "path":
-                    continue
-                # ---- B. every kind of unusable final file
-                unknown = MObj("an unfolded expression of unknown origin", kinds={"sympy.Expr", "sympy.Basic"}, open=False)
-                contents = [(f"a file on which pickle.load raises {k}", Damaged(k), "rw", []) for k in LOAD_FAILURES]
-                contents += [("a half-written file", PARTIAL, "rw", []), ("a file without read permission", Pickled((e1, e1.attrs["__unfolded__"])), "unreadable", []),
-                             ("a pickle of a bare expression (no key stored)", Pickled(unknown), "rw", [unknown]),
-                             ("a pickle of None", Pickled(None), "rw", []),
-                             ("a pickle of a 3-tuple", Pickled((e1, e1.attrs["__unfolded__"], 0)), "rw", []),
-                             ("an entry for a different expression with the same str() and hash()", Pickled((e2, e2.attrs["__unfolded__"])), "rw", [e2.attrs["__unfolded__"]])]
-                for what, content, mode, bad in contents:
-                    fs_c = fresh_fs()
-                    fs_c.files[final] = File(content, "an earlier process", mode)
-                    wc = CacheWorld(tree, fs_c, seed, process=4)
-                    oc = call(wc, entry, e1, directory_arg(wc), "call")
-                    judge_result(found, oc, e1, f"{sc}: the cache file is {what}", bad)
-                    judge_events(found, oc, final, f"{sc}: the cache file is {what}")
-                    n_scenarios += 1
-                # (not judged: a DIRECTORY at the cache file name - the load is tolerated, but os.replace onto a directory raises; outside
-                #  "what was stored in the directory before" as the recorded rules read it, reported in DESIGN.md as an observation)
-                # ---- C. a writing call killed after each of its file-system operations; then a fresh process
-                n_ops = len(o1.events)
-                for k in range(1, n_ops + 1):
-                    fs_k = fresh_fs()
-                    wk = CacheWorld(tree, fs_k, seed, process=5)
-                    killed = call(wk, entry, e1, directory_arg(wk), "killed call", kill_at=k)
-                    if killed.kind != "killed":
-                        continue
-                    state = f"{sc}: after a call that was killed right before its `{' '.join(_osp.basename(str(x)) for x in killed.events[-1][1:3])[:60]}`"
-                    for expr, who in ((e1, "the same expression"), (e2, "a colliding expression")):
-                        wn = CacheWorld(tree, fs_k.copy(), seed, process=6)
-                        on = call(wn, entry, expr, directory_arg(wn), "later call")
-                        judge_result(found, on, expr, f"{state}, {who}", [e1.attrs["__unfolded__"]] if expr is e2 else [])
-                        leftovers = {ev[2] for ev in killed.events if ev[1] == "open"}
-                        for ev in on.events:
-                            if ev[1] in {"unlink", "truncate"} and ev[2] in leftovers and ev[3] == "killed call" and ev[2] != final:
-                                found.add("R-OWNFILES", f"{ENTRY}::removes-foreign-file", f"the call removes / overwrites `{_osp.basename(ev[2])}`, which another (here: killed, but indistinguishable from a running) process created", state)
-                        n_scenarios += 1
-    ctx.stats["scenarios"] = n_scenarios
-    where = tree.loc(entry.node)
-    for (rule, key), (what, scenarios) in sorted(found.items.items()):
-        ctx.violation(rule, key, where, what, {"scenarios": sorted(set(scenarios))[:6], "count": len(scenarios)})
-    bad_rules = {r for r, _ in found.items}
-    texts = {
-        "R-VERIFY": "every call returns the unfolding of its own expression or a stored value whose key equals it",
-        "R-TOLERATE": "no content of the cache directory makes the call raise",
-        "R-PUBLISH": "the final cache file is never opened for writing; it appears by a rename from a closed temporary whose name is unique to the call",
-        "R-OWNFILES": "the call removes / overwrites / renames only files it created itself",
-        "R-NOWAIT": "no call waits without bound (also after a call that was killed at any point)",
-    }
-    for rule, text in texts.items():
-        if rule not in bad_rules:
-            ctx.ok(rule, where, f"{n_scenarios} scenarios (histories, damaged / foreign files, kill points, PYTHONHASHSEED unset / 0 / 42): {text}")
+                ekind, call, efn = pending_exc
+                needed = NEEDED_LOAD if ekind == "load" else NEEDED_OPEN
+                if h is None:
+                    try_node = ev[3]
+                    if any(handler_covers(x, needed, self.tree, fn) for x in try_node.handlers):
+                        return  # infeasible: some handler of this try catches everything needed
+                    # exception escapes this try; keep pending
+                else:
+                    # entering a handler: the exception is caught on this path
+                    if not handler_covers(h, needed, self.tree, fn):
+                        # feasible only for part of the exceptions; the escape path covers the rest
+                        pass
+                    pending_exc = None
+                    st.load_failed = (ekind, call, efn)
+                    self.ok_counts["tolerated"] += 1
+                    if h.name:
+                        st.tags[h.name] = {"exc"}
+        # ---- path exit
+        if path.exit == "propagate" and pending_exc is not None:
+            ekind, call, efn = pending_exc
+            what = "pickle.load" if ekind == "load" else "opening the cache file"
+            self.flag(
+                "R-TOLERATE",
+                f"{efn.qual}::{unparse(call)[:60]}::escapes",
+                call,
+                f"{efn.qual}: an exception raised by {what} (`{unparse(call)[:60]}`) propagates out of perform_cached_doit"
+                " - a truncated or foreign file in the cache directory makes every later call raise",
+                {"needed_handlers": sorted(NEEDED_LOAD if ekind == "load" else NEEDED_OPEN)},
+            )
+        elif path.exit in {"raise", "propagate"} and st.load_failed is not None:
+            node = path.exit_node
+            ekind, call, efn = st.load_failed
+            self.flag("R-TOLERATE", f"{efn.qual}::raises-after-failed-load", node if node is not None else call,
+                      f"after a failed cache load in {efn.qual} the function raises (`{unparse(node)[:60] if node is not None else ''}`) instead of falling through to recomputation")
+
+    def _raised_in_handler(self, path) -> bool:
+        node = path.exit_node
+        from ..loader import ancestors
+
+        return any(isinstance(a, ast.ExceptHandler) for a in ancestors(node)) if node is not None else False
+
+    def assign(self, target: ast.AST, tags: set[str], st: State) -> None:
+        if isinstance(target, ast.Name):
+            st.tags[target.id] = set(tags)
+        elif isinstance(target, (ast.Tuple, ast.List)):
+            for t in target.elts:
+                self.assign(t.value if isinstance(t, ast.Starred) else t, tags, st)
+
+    def scan_calls(self, node: ast.AST, st: State, fn: FuncInfo) -> None:
+        """R-PUBLISH events inside any statement/expression."""
+        for c in ast.walk(node):
+            if not isinstance(c, ast.Call):
+                continue
+            callee = self.tree.callee(c, fn)
+            mode = _is_open_call(c, callee)
+            if mode and any(m in mode for m in "wax+"):
+                target = c.args[0] if isinstance(c.func, ast.Name) or callee == "os.fdopen" else c.func.value
+                t = self.tags(target, st, fn)
+                if "final" in t and "tmp" not in t:
+                    self.flag("R-PUBLISH", f"{fn.qual}::open-final-for-write", c,
+                              f"{fn.qual}: the final cache file is opened for writing (`{unparse(c)[:60]}`): a reader or a crash sees a partial file, two writers interleave",
+                              {"mode": mode})
+            if isinstance(c.func, ast.Attribute) and c.func.attr in {"write_bytes", "write_text"}:
+                t = self.tags(c.func.value, st, fn)
+                if "final" in t and "tmp" not in t:
+                    self.flag("R-PUBLISH", f"{fn.qual}::write-final", c, f"{fn.qual}: `{unparse(c)[:60]}` writes the final cache file in place")
+            is_rename = callee in RENAMES or (isinstance(c.func, ast.Attribute) and c.func.attr in {"replace", "rename"} and len(c.args) == 1 and "final" in self.tags(c.args[0], st, fn))
+            if is_rename:
+                if callee in RENAMES:
+                    src, dst = c.args[0], c.args[1]
+                else:
+                    src, dst = c.func.value, c.args[0]
+                ts, td = self.tags(src, st, fn), self.tags(dst, st, fn)
+                if "final" in td:
+                    if "tmp" not in ts:
+                        self.flag("R-PUBLISH", f"{fn.qual}::rename-source-not-unique", c,
+                                  f"{fn.qual}: `{unparse(c)[:70]}` publishes from a name that is not process-unique (derived from the hash only): concurrent writers share the temporary")
+                    elif any("tmp" in t for _, t in st.open_writes):
+                        self.flag("R-PUBLISH", f"{fn.qual}::rename-before-close", c,
+                                  f"{fn.qual}: `{unparse(c)[:70]}` renames the temporary while it is still open for writing (data may be unflushed)")
+                    else:
+                        self.ok_counts["publishes"] += 1
+
+    def stmt(self, node: ast.AST, st: State, fn: FuncInfo, path) -> None:
+        self.scan_calls(node, st, fn)
+        if isinstance(node, (ast.Assign, ast.AnnAssign)) and node.value is st.last_call and node.value is not None:
+            return  # the expanded call already bound its return value
+        if isinstance(node, ast.Assign):
+            t = self.tags(node.value, st, fn)
+            if isinstance(node.value, ast.Constant) and node.value.value is None:
+                t = {"none"}  # `cached = None` in a handler: the sentinel for "nothing usable was loaded"
+            for tgt in node.targets:
+                self.assign(tgt, t, st)
+        elif isinstance(node, ast.AnnAssign) and node.value is not None:
+            self.assign(node.target, self.tags(node.value, st, fn), st)
+        elif isinstance(node, ast.Return):
+            if fn is not self.entry:
+                return  # value handled at call-return
+            t = self.tags(node.value, st, fn) if node.value is not None else {"none"}
+            if "<ret>" in st.tags and isinstance(node.value, ast.Call):
+                t = st.tags.pop("<ret>")
+            self.judge_return(node, t, st, fn)
+
+    def judge_return(self, node: ast.Return, t: set[str], st: State, fn: FuncInfo) -> None:
+        key_base = f"{fn.qual}::return"
+        if "load" in t and not st.verified:
+            self.flag("R-VERIFY", f"{key_base}::unverified-load", node,
+                      f"{fn.qual}: `{unparse(node)[:60]}` returns what pickle.load produced without comparing it with the query expression"
+                      " - the file name is sha256(str(expr)) / hash(expr), neither is injective (assumptions and non-SymPy attributes do not print)",
+                      {"tags": sorted(t)})
+        elif "load" in t:
+            self.ok_counts["verified_returns"] += 1
+        elif "doit" in t:
+            self.ok_counts["doit_returns"] += 1
+        else:
+            self.flag("R-VERIFY", f"{key_base}::neither-cache-nor-doit", node,
+                      f"{fn.qual}: `{unparse(node)[:60]}` returns a value that is neither a verified cache entry nor the result of doit()", {"tags": sorted(t)})
+
+    def test(self, test: ast.AST, outcome: bool, st: State, fn: FuncInfo) -> None:
+        if isinstance(test, ast.UnaryOp) and isinstance(test.op, ast.Not):
+            return self.test(test.operand, not outcome, st, fn)
+        if isinstance(test, ast.BoolOp):
+            # and: outcome True => all true ; or: outcome False => all false
+            if isinstance(test.op, ast.And) and outcome:
+                for v in test.values:
+                    self.test(v, True, st, fn)
+            if isinstance(test.op, ast.Or) and not outcome:
+                for v in test.values:
+                    self.test(v, False, st, fn)
+            return
+        if isinstance(test, ast.Compare) and len(test.ops) == 1:
+            l, r = test.left, test.comparators[0]
+            tl, tr = self.tags(l, st, fn), self.tags(r, st, fn)
+            op = test.ops[0]
+            # `x is None` / `x is not None` on a value known to be the constant None (or known not to be)
+            if isinstance(op, (ast.Is, ast.IsNot)) and isinstance(r, ast.Constant) and r.value is None and isinstance(l, ast.Name):
+                is_none = tl == {"none"}
+                not_none = bool(tl) and "none" not in tl and bool(tl & {"load", "doit"})
+                truth = None
+                if is_none:
+                    truth = isinstance(op, ast.Is)
+                elif not_none:
+                    truth = isinstance(op, ast.IsNot)
+                if truth is not None and truth != outcome:
+                    raise Infeasible
+            pair = ("load" in tl and "key" in tr) or ("load" in tr and "key" in tl)
+            if pair and ((isinstance(op, ast.Eq) and outcome) or (isinstance(op, ast.NotEq) and not outcome)):
+                st.verified = True
+        if isinstance(test, ast.Call) and isinstance(test.func, ast.Name) and test.func.id == "isinstance" and len(test.args) == 2 and isinstance(test.args[0], ast.Name):
+            # isinstance(None, <container type>) is False: the sentinel cannot pass a shape test
+            if self.tags(test.args[0], st, fn) == {"none"} and "NoneType" not in unparse(test.args[1]) and outcome:
+                raise Infeasible
+        if isinstance(test, ast.Call) and isinstance(test.func, ast.Attribute) and test.func.attr in {"equals", "__eq__"}:
+            tl = self.tags(test.func.value, st, fn)
+            tr = self.tags(test.args[0], st, fn) if test.args else set()
+            if (("load" in tl and "key" in tr) or ("load" in tr and "key" in tl)) and outcome:
+                st.verified = True
 
 
 def check_hash_function(ctx: Check, tree: Tree) -> None:
-    """R-HASHKEY: interpreted in two processes (different id(), clock, pid, random state) with the same environment:
-    the key of an object must be the same; and in one process it must not change from call to call."""
-    fn = tree.funcs.get(HASHFN)
-    if fn is None:
-        raise AnalysisError("vanished anchor: get_readable_hash")
-    problems = []
+    fn = tree.func("ampform.sympy._cache::get_readable_hash")
+    bad = []
+    reach = [fn]
+    for call, callee in tree.calls_in(fn):
+        if callee in tree.funcs:
+            reach.append(tree.funcs[callee])
+    for f in reach:
+        for call, callee in tree.calls_in(f):
+            name = (callee or unparse(call.func)).split(".")[-1].split("::")[-1]
+            if callee in {"builtins.id", "time.time", "time.time_ns", "random.random", "os.getpid", "uuid.uuid4"} or (isinstance(call.func, ast.Name) and call.func.id == "id"):
+                bad.append((f, call, name))
+    rets = [n for n in walk_function(fn.node) if isinstance(n, ast.Return)]
+    ctx.verdict(not bad and len(rets) >= 1, "R-HASHKEY", f"{fn.qual}::deterministic", tree.loc(fn.node),
+                f"get_readable_hash: {len(rets)} exits, no id()/time/pid/random source reachable (key is a function of the object and PYTHONHASHSEED only)",
+                [f"{f.qual}: {unparse(c)}" for f, c, _ in bad] or None)
+
+
+DELETERS = {"os.remove", "os.unlink", "os.rmdir", "shutil.rmtree", "os.removedirs", "os.truncate"}
+
+
+_LISTING = (".glob(", ".iterdir(", "listdir(", "scandir(", ".rglob(", "os.walk(")
+_OWN_TEMP = ("mkstemp(", "NamedTemporaryFile(", "mkdtemp(", "TemporaryDirectory(")
+
+
+def _file_origin(tree: Tree, fn: FuncInfo, target: ast.AST, callers_of: dict, depth: int) -> tuple[bool, bool, bool]:
+    """(own, enumerated, unknown): does the path derive from a temporary this call created itself, from a
+    listing of the shared directory, or from something the rule cannot follow?  A path that is a parameter of a
+    private helper is judged at every call site of the helper (the helper removes what its callers hand in)."""
+    from ..dataflow import RD
+
+    top = fn
+    while top.outer is not None:
+        top = top.outer
+    rd = RD(top.node)
+    deps = rd.closure(rd.uses(target))
+    texts = [unparse(target)] + [unparse(d.value) for d in deps if isinstance(d.value, ast.AST)]
+    own = any(k in t for t in texts for k in _OWN_TEMP)
+    created = [unparse(n_) for n_ in walk_function(top.node) if isinstance(n_, ast.Call) and (
+        (unparse(n_.func) == "os.open" and "O_EXCL" in unparse(n_)) or (unparse(n_.func) in {"open", "os.fdopen"} and any(isinstance(a, ast.Constant) and isinstance(a.value, str) and "x" in a.value for a in n_.args[1:2])))]
+    own = own or any(unparse(target) in c or any(isinstance(nm, ast.Name) and nm.id in c for nm in ast.walk(target)) for c in created)
+    loops = [unparse(d.node.iter) for d in deps if d.kind == "for" and isinstance(d.node, ast.For)]
+    enumerated = any(k in t for t in texts + loops for k in _LISTING)
+    params = sorted({d.name for d in deps if d.kind == "param"} | ({target.id} if isinstance(target, ast.Name) and target.id in fn.params and not list(rd.reaching(target)) else set()))
+    params = [p_ for p_ in params if p_ in fn.params and p_ not in {"self", "cls"}]
+    unknown = False
+    if params and not own and not enumerated:
+        sites = callers_of.get(fn.qual, [])
+        if not sites or depth > 3:
+            unknown = True
+        own_everywhere = bool(sites)
+        for cfn, c in sites:
+            for p_ in params:
+                i = fn.params.index(p_) - (1 if fn.cls is not None and fn.params[:1] in (["self"], ["cls"]) else 0)
+                arg = next((k.value for k in c.keywords if k.arg == p_), c.args[i] if 0 <= i < len(c.args) else None)
+                if arg is None:
+                    unknown, own_everywhere = True, False
+                    continue
+                o, e, u = _file_origin(tree, cfn, arg, callers_of, depth + 1)
+                enumerated, unknown = enumerated or e, unknown or u
+                own_everywhere = own_everywhere and o
+        own = own_everywhere
+    elif not own and not enumerated:
+        unknown = not params and not any(isinstance(d.value, ast.AST) for d in deps) and not isinstance(target, ast.Constant)
+    return own, enumerated, unknown
+
+
+def check_foreign_deletes(ctx: Check, tree: Tree) -> None:
+    """R-OWNFILES: several processes share the cache directory.  Nothing reachable from
+    perform_cached_doit deletes, truncates or renames AWAY a file that this call did not create
+    itself (its own mkstemp temporary): a "clean-up" of *.tmp files or of stale entries removes the
+    temporary of a concurrent writer, whose os.replace then raises out of perform_cached_doit."""
+    from ..dataflow import RD
+
+    graph = tree.call_graph()
+    reach = {q for q in tree.reachable(ENTRY, graph) if q.startswith("ampform.sympy") and q in tree.funcs}
     n = 0
-    for seed in (None, "0", "42"):
-        e = CacheWorld.expression("E1", "f(x)", 1234567)
-        for obj, what in ((e, "an expression"), (("a", 1), "a tuple")):
-            got = []
-            for process in (1, 2):
-                w = CacheWorld(tree, FileSystem(), seed, process=process)
-                for _ in range(2):
-                    try:
-                        got.append(w.ex.run(fn, [obj]))
-                    except ModelRaise as exc:
-                        got.append(f"raises {exc}")
-                    except ModelError as exc:
-                        raise AnalysisError(f"get_readable_hash: cannot interpret - {exc}") from exc
+    callers_of: dict[str, list] = {}
+    for q in sorted(reach):
+        for c, callee in tree.calls_in(tree.funcs[q], nested=False):
+            if callee in reach:
+                callers_of.setdefault(callee, []).append((tree.funcs[q], c))
+    for q in sorted(reach):
+        fn = tree.funcs[q]
+        for call, callee in tree.calls_in(fn, nested=False):
+            target = None
+            if callee in DELETERS and call.args:
+                target = call.args[0]
+            elif isinstance(call.func, ast.Attribute) and call.func.attr in {"unlink", "rmdir", "rmtree", "write_bytes", "write_text", "truncate"} and callee not in tree.funcs:
+                target = call.func.value
+            if target is None:
+                continue
             n += 1
-            if seed is None and what == "a tuple":
-                continue  # pickle.dumps / salted hashes of a non-SymPy object without a fixed seed: outside the property (the key of perform_cached_doit is an expression)
-            if len({str(g) for g in got}) != 1:
-                problems.append(f"PYTHONHASHSEED={'unset' if seed is None else seed}, {what}: {sorted({str(g)[:40] for g in got})}")
-    ctx.verdict(not problems, "R-HASHKEY", f"{fn.qual}::deterministic", tree.loc(fn.node),
-                f"get_readable_hash gives the same key in two processes and on repeated calls ({n} cases; key is a function of the object and PYTHONHASHSEED only)", problems or None)
+            own, enumerated, unknown = _file_origin(tree, fn, target, callers_of, 0)
+            ok = own and not enumerated and not unknown
+            if not ok and not enumerated and unknown:
+                # no positive evidence either way: where the path comes from is not understood
+                raise AnalysisError(f"{q}: `{unparse(call)[:60]}` removes a file whose origin is not understood (neither this call's own temporary nor found by listing the directory)")
+            ctx.verdict(ok, "R-OWNFILES", f"{q}::{unparse(call.func)}", tree.loc(call),
+                        f"{q}: `{unparse(call)[:60]}` removes {'its own temporary file (created by mkstemp in this call)' if ok else 'a file this call did not create'}",
+                        None if ok else ("files found by listing the shared cache directory" if enumerated else "the target does not derive from this call's own mkstemp()") + " - may belong to a concurrent process that is between mkstemp and os.replace")
+    if n == 0:
+        ctx.ok("R-OWNFILES", "src/ampform/sympy", "nothing reachable from perform_cached_doit deletes or truncates a file")
+
+
+def check_no_unbounded_wait(ctx: Check, tree: Tree) -> None:
+    """R-NOWAIT: perform_cached_doit returns whatever is in the cache directory, also what a process
+    that was killed at any point left behind.  A loop that waits (sleeps / retries) until a file
+    appears or disappears, without a bound on time or attempts, never returns when the process that
+    should change that file is dead (stale lock)."""
+    graph = tree.call_graph()
+    reach = {q for q in tree.reachable(ENTRY, graph) if q.startswith("ampform.sympy") and q in tree.funcs}
+    # context managers / helpers used through `with` are reached by name
+    n = 0
+    for q in sorted(reach | {q for q in tree.funcs if q.startswith("ampform.sympy::") or q.startswith("ampform.sympy._cache::")}):
+        fn = tree.funcs[q]
+        for loop in [w for w in walk_function(fn.node, nested=False) if isinstance(w, ast.While)]:
+            sleeps = [c for c in ast.walk(loop) if isinstance(c, ast.Call) and unparse(c.func).split(".")[-1] in {"sleep", "wait"}]
+            fs = [c for c in ast.walk(loop) if isinstance(c, ast.Call) and (unparse(c.func).split(".")[-1] in {"exists", "is_file", "open", "stat", "lstat", "access"} or unparse(c.func) in {"os.open", "open"})]
+            handlers = [h for h in ast.walk(loop) if isinstance(h, ast.ExceptHandler) and h.type is not None and any(k in unparse(h.type) for k in ("FileExistsError", "FileNotFoundError", "OSError", "BlockingIOError"))]
+            if not (sleeps and (fs or handlers)):
+                continue
+            n += 1
+            test_txt = unparse(loop.test)
+            bounded = any(isinstance(c, ast.Compare) and any(k in unparse(c) for k in ("time", "deadline", "timeout", "attempt", "retries", "tries", "count")) for c in ast.walk(loop))
+            ctx.verdict(bounded, "R-NOWAIT", f"{q}::wait-loop", tree.loc(loop),
+                        f"{q}: the loop `while {test_txt}` that waits on the state of a file is bounded by a deadline / number of attempts",
+                        None if bounded else "it only ends when another process changes the file: a process killed while it holds the lock / before it publishes leaves every later call hanging")
+    if n == 0:
+        ctx.ok("R-NOWAIT", "src/ampform/sympy", "no loop on the perform_cached_doit path waits for the state of a file")
 
 
 def run(ctx: Check, tree: Tree) -> None:
     ctx.decided += [
-        "R-VERIFY: in every scenario the call returns doit() of its own expression or a stored value whose stored key equals it (colliding expressions, same / other process, memory of the process)",
-        "R-TOLERATE: no missing / damaged / truncated / unreadable / foreign cache file and no leftover of a killed call makes the call raise",
-        "R-PUBLISH: the final file name is only the destination of a rename from a call-unique temporary that has been closed; it is never opened for writing",
+        "R-VERIFY: every value returned by perform_cached_doit is the result of doit() or a loaded value that was compared equal to the query expression on that path",
+        "R-TOLERATE: exceptions of pickle.load / opening the cache file cannot propagate out; handler paths reach recomputation",
+        "R-PUBLISH: the final file name is only the destination of a rename from a process-unique temporary that has been closed; it is never opened for writing",
         "R-INJECTIVE (shared with C14): the key comparison distinguishes expressions that differ only in a non-SymPy attribute",
         "R-NOWAIT: no unbounded wait on the state of a file (a lock left by a killed process cannot hang later calls)",
-        "R-OWNFILES: the only files ever deleted / overwritten are the call's own (never files found by listing the shared directory)",
+        "R-OWNFILES: the only file ever deleted is the call's own mkstemp temporary (never files found by listing the shared directory)",
         "R-HASHKEY: get_readable_hash depends on the object and the environment variable only",
     ]
     ctx.not_decided += ["that == on SymPy objects is the structural equality the property means (C14 ties it to non-SymPy attributes)", "atomicity of rename (POSIX)", "that doit() itself is deterministic"]
     ctx.assumptions += [
-        "pickle.load on arbitrary bytes may raise UnpicklingError, EOFError, AttributeError, ImportError, IndexError (Python docs)",
-        "os.replace/os.rename within one directory is atomic (POSIX); tempfile.mkstemp / NamedTemporaryFile names are unique per call",
-        "str(expr) and hash(expr) are not injective on expressions (assumptions / non-SymPy attributes are not printed): the model has two different expressions that agree in both",
-        "the function is interpreted on a model of pathlib / os / tempfile / pickle / open / time (sa/props/c16.py::CacheWorld); a writer that is killed leaves what it had open as a partial file",
+        "pickle.load on arbitrary bytes may raise UnpicklingError, EOFError, AttributeError, ImportError, IndexError (Python docs) - a handler must cover at least these, or Exception",
+        "os.replace/os.rename within one directory is atomic (POSIX); tempfile.mkstemp names are unique per call",
+        "str(expr) and hash(expr) are not injective on expressions (assumptions / non-SymPy attributes are not printed)",
     ]
-    ctx.section(check_protocol, ctx, tree)
+    entry = tree.func(ENTRY)
+    module_prefix = "ampform.sympy"
+
+    def expand(q: str) -> bool:
+        return q.startswith(module_prefix) and q != ENTRY and not q.endswith("get_readable_hash") and "get_system_cache_directory" not in q
+
+    def may_raise(call: ast.Call, callee: str | None) -> bool:
+        if callee in LOADS:
+            return True
+        mode = _is_open_call(call, callee)
+        return bool(mode) and not any(m in mode for m in "wax+") and callee != "os.fdopen"
+
+    walker = PathWalker(tree, expand=expand, may_raise=may_raise, max_depth=3)
+    paths = walker.paths(entry)
+    ctx.stats["paths"] = len(paths)
+    interp = Interp(tree, ctx, entry)
+    n_infeasible = 0
+    for p in paths:
+        try:
+            interp.run_path(p)
+        except Infeasible:
+            n_infeasible += 1
+    ctx.stats["infeasible_paths_pruned"] = n_infeasible
+    # anchors: a load and a doit must exist somewhere reachable, otherwise the rule is vacuous
+    reach_fns = [entry] + [tree.funcs[c] for _, c in tree.calls_in(entry) if c in tree.funcs and expand(c)]
+    n_loads = sum(1 for f in reach_fns for _, c in tree.calls_in(f) if c in LOADS)
+    n_doit = sum(1 for f in reach_fns for n in walk_function(f.node) if isinstance(n, ast.Call) and isinstance(n.func, ast.Attribute) and n.func.attr == "doit")
+    ctx.stats.update(loads=n_loads, doit_calls=n_doit, **interp.ok_counts)
+    if n_doit < 1:
+        raise AnalysisError("vanished anchor: perform_cached_doit no longer calls .doit()")
+    if n_loads < 1:
+        ctx.info("R-VERIFY", tree.loc(entry.node), "no pickle.load reachable: the cache is never read (property holds trivially)")
+    for rule, key, where, what, detail in interp.findings.values():
+        ctx.violation(rule, key, where, what, detail)
+    rules_bad = {f[0] for f in interp.findings.values()}
+    where = tree.loc(entry.node)
+    if "R-VERIFY" not in rules_bad:
+        ctx.ok("R-VERIFY", where, f"{len(paths)} paths: {interp.ok_counts['verified_returns']} return a verified cache entry, {interp.ok_counts['doit_returns']} return doit()")
+    if "R-TOLERATE" not in rules_bad:
+        ctx.ok("R-TOLERATE", where, f"{n_loads} load site(s): every raising path is caught ({interp.ok_counts['tolerated']} handler entries) and continues to a judged return")
+    if "R-PUBLISH" not in rules_bad:
+        ctx.ok("R-PUBLISH", where, f"final cache file is never opened for writing; {interp.ok_counts['publishes']} path(s) publish by rename from a unique temporary")
     ctx.section(check_hash_function, ctx, tree)
+    ctx.section(check_foreign_deletes, ctx, tree)
+    ctx.section(check_no_unbounded_wait, ctx, tree)
     # the stored key is compared with `==`: for expressions that differ only in a non-SymPy attribute that
     # comparison is decided by the hashable content (rule shared with C14)
     from .c14 import check_content_injective
@@ -779,6 +534,3 @@ def run(ctx: Check, tree: Tree) -> None:
     if hook is None:
         raise AnalysisError("vanished anchor: _hashable_content_method")
     ctx.section(check_content_injective, ctx, tree, hook)
-
-
-_ = (ast, unparse)
